@@ -488,7 +488,28 @@ class Exec:
                 cb = (b == 1) if is_concrete_int(b) else b.arg(0)
                 c = {'or': b_or, 'and': b_and}[op](ca, cb) if op != 'xor' else b_not(xr.b_eq(ca, cb))
                 return z3.If(c, 1, 0) if not isinstance(c, bool) else int(c)
-            raise Unsupported('bitwise %s on symbolic integers' % op)
+            # bit decomposition over 16 bits (values outside [0, 65535] are reported as outside the modelled range)
+            K = 16
+            za = z3.IntVal(a) if is_concrete_int(a) else a
+            zb = z3.IntVal(b) if is_concrete_int(b) else b
+            rng = []
+            for v in (a, b):
+                if not is_concrete_int(v):
+                    rng.append(z3.Or(v < 0, v >= 2 ** K))
+                elif not (0 <= v < 2 ** K):
+                    raise Unsupported('bitwise %s with a constant outside 16 bits' % op)
+            self.viol(path, 'bitwise-range', z3.Or(*rng), fn, ins, ins.dst)
+            r = 0
+            for k in range(K):
+                if is_concrete_int(a) and not (a >> k) & 1 and op == 'and':
+                    continue
+                if is_concrete_int(b) and not (b >> k) & 1 and op == 'and':
+                    continue
+                ba = ((za / (2 ** k)) % 2 == 1)
+                bb = ((zb / (2 ** k)) % 2 == 1)
+                bit = {'and': z3.And(ba, bb), 'or': z3.Or(ba, bb), 'xor': z3.Xor(ba, bb)}[op]
+                r = r + z3.If(bit, 2 ** k, 0)
+            return r
         if op in ('shl', 'ashr', 'lshr'):
             if conc:
                 return a << b if op == 'shl' else a >> b
